@@ -9,5 +9,5 @@ pub mod trace;
 pub use ovi::{instrument, NodeInfo, OvI};
 pub use proj::ToProj;
 pub use rec::{Foreign, Rec, Rec2, RecG};
-pub use run::{run_json, run_json_with, run_ov, Outcome, Run};
+pub use run::{run_json, run_json_with, run_ov, run_ov_with, Outcome, Run};
 pub use trace::{log_call, Event, Merge, RKind, Report, Script};
